@@ -124,7 +124,9 @@ Definition run_op (utxos : list (N * value)) (x : op) (s : state) (o : tape_stat
                            | None => None end) s)), None)
   | OpProposals p => (pure_op s o (Ok (set_s_proposals p s)), None)
   | OpMint ow p n amt =>
-      (pure_op s o (let* m := mint_update ow p n amt (opt_mint (s_mint s)) in Ok (set_s_mint (Some m) s)), None)
+      (* Int::from_str accepts exactly the range int_min ..= int_max *)
+      (pure_op s o (if ((amt <? int_min) || (int_max <? amt))%Z then Err
+                    else let* m := mint_update ow p n amt (opt_mint (s_mint s)) in Ok (set_s_mint (Some m) s)), None)
   | OpDonation c => (pure_op s o (Ok (set_s_donation (Some c) s)), None)
   | OpTreasury c => (pure_op s o (set_current_treasury_value c s), None)
   | OpSetFee c => (pure_op s o (Ok (set_s_fee_request (FeeExactly c) s)), None)
